@@ -180,6 +180,9 @@ def gen_case(rng, tier, avoid):
         hist = out_spec[:3] + hist + out_spec[3:] + outside[-1:]        # something before the block as well
     else:
         hist += outside
+    if rng.random() < 0.15:
+        # warnings silenced by the application's logging configuration: the mode must raise all the same
+        hist = [{'op': 'set_log', 'mode': rng.choice(['error', 'disabled'])}] + hist
     return {'scenario': {'env': {'tz': 'UTC'}, 'history': hist},
             'params': {'breach': breach, 'exit': exit_kind, 'depth': depth, 'form': block['form'], 'cross': cross}}
 
